@@ -121,14 +121,16 @@ CLAIMED = {
         technique="Coq proof (vote = first maximal total by induction; line dialect from the parse theorem; composition for consistent files) + differential correspondence",
         design="4 (C09)"),
     "C02": dict(
-        text="Coq theorems (Properties/C02.v, 12 statements, closed under the global context) about the model of the GFF3 "
+        text="Coq theorems (Properties/C02.v, 13 statements, closed under the global context) about the model of the GFF3 "
              "importer and of children()/parents(): for every input with unique tab/newline-free ids the import succeeds and "
              "stores each line once in order; level-1 relation rows are exactly the Parent links (dangling parents give a row, "
              "never a feature), level-2 rows exactly the composition of two level-1 links from a stored feature, nothing deeper; "
              "the table is invariant under every permutation of the lines; children/parents at level 1, 2 or None select exactly "
              "the related stored rows, are mutually inverse, return each row once and commute with the featuretype filter; the "
              "relations step is exact on EVERY stored state (C02_relations_step_exact: what update() adds at level 2 are exactly "
-             "the compositions of two level-1 rows - true since the repair of F22, which the two-batch correspondence found). The "
+             "the compositions of two level-1 rows - true since the repair of F22, which the two-batch correspondence found), and over "
+             "EVERY history create_db, update, update, ... under the non-deleting strategies the level-2 rows are exactly those "
+             "compositions (C02_history_closed: nothing deeper, nothing missing, also for grandparents arriving later). The "
              "model (Model/Import.v incl. the temp-file text round trip of ids, Model/Query.v) is tied to create.py/interface.py "
              "by importing ~900 generated graphs per quick run (all line orders for small graphs in the thorough tier) and "
              "comparing the whole relations table and ~50 children/parents queries per graph inside Coq, against both the model "
